@@ -10,7 +10,7 @@ import re
 from ..astutil import call_attr, calls_in, guard_facts, unparse, walk_local
 from ..cfg import CFG
 from ..report import Finding, Report
-from ..srcindex import AnalysisError, ClassInfo, Index
+from ..srcindex import AnalysisError, ClassInfo, Index, raw_funcs
 from .c10 import check_var_binding
 
 CONS = "xdsl/irdl/constraints.py"
@@ -25,7 +25,7 @@ def check_get_bases(idx: Index, rep: Report) -> None:
     r = rep.rule("C09.R1", "every get_bases() returns only classes that cannot have instances of another class (type(instance), runtime-final, @irdl_attr_definition) or delegates to inner constraints", floor=12)
     n = 0
     for mi in idx.modules.values():
-        for f in mi.functions.values():
+        for f in raw_funcs(mi):
             if f.name != "get_bases" or f.cls is None:
                 continue
             if f.cls.name == "AttrConstraint":
@@ -101,7 +101,7 @@ def check_relax(idx: Index, rep: Report) -> None:
     r = rep.rule("C09.R2", "relax_constraint never shrinks the union: one side absorbs the other only under a condition implying inclusion, merged sets contain both sides, at most one parameter position is widened", floor=5)
     mi = idx.module(CONS)
     n = 0
-    for f in mi.functions.values():
+    for f in raw_funcs(mi):
         if f.name != "relax_constraint" or f.cls is None:
             continue
         n += 1
